@@ -131,6 +131,8 @@ Chunks == {
   CallChunk("f", <<>>), CallChunk("g", <<>>), CallChunk("f", <<Num("1")>>), CallChunk("g", <<Id("a")>>),
   CallChunk("f", <<Num("1"), T("comma"), Id("a")>>), CallChunk("a", <<>>),
   CallChunk("f", <<T("run"), Id("g"), T("with"), T("end")>>), CallChunk("g", <<Num("big")>>),
+  \* the +/- sugar inside an argument list counts as one argument
+  CallChunk("f", <<Id("a"), T("plus"), Num("1")>>), CallChunk("g", <<Id("a"), T("minus"), Num("1"), T("comma"), Id("a")>>),
   <<Id("a"), T("assign"), Num("1")>>, <<Id("a"), T("assign"), Num("big")>>, <<Id("a"), T("assign"), Id("a"), T("plus"), Num("1")>>,
   <<Id("a"), T("assign"), Id("a"), T("minus"), Num("big")>>,
   <<T("goto"), Id("a")>>, <<T("goto"), Id("f")>>, <<Id("a"), T("colon")>>, <<Id("f"), T("colon")>>,
